@@ -150,15 +150,86 @@ theorem skipN_items_bd (f : Bytes → Option Bytes) (e : Val → Bytes) (p : Val
     simp only [Val.len, encItems, skipN, List.append_assoc, h hd _ hw.1 (by omega), ih2 tl hw.2 (by omega)]
   | _ => intro tl hw; simp [wtItems] at hw
 
+/-! ### `_skip_object` by tag -/
+theorem sob_str (self : Byte → Bytes → Option Bytes) (t : Nat) (bs : Bytes) (h : t = 4 ∨ t = 5) : skipObjectBody self t bs = skipStr bs := by
+  simp only [skipObjectBody, ct_str, ct_bytes, h, if_true]
+theorem sob_empty (self : Byte → Bytes → Option Bytes) (t : Nat) (bs : Bytes) (h : t = 2 ∨ t = 0 ∨ t = 1) : skipObjectBody self t bs = some bs := by
+  have h1 : ¬ (t = 4 ∨ t = 5) := by omega
+  simp only [skipObjectBody, ct_str, ct_bytes, ct_none, ct_false, ct_true, h1, h, if_false, if_true]
+theorem sob_listgen (self : Byte → Bytes → Option Bytes) (t : Nat) (bs : Bytes) (h : t = 20 ∨ t = 24) :
+    skipObjectBody self t bs = match readSize bs with
+      | none => none
+      | some (n, r) => skipN (skipTagged self) n r := by
+  have h1 : ¬ (t = 4 ∨ t = 5) := by omega
+  have h2 : ¬ (t = 2 ∨ t = 0 ∨ t = 1) := by omega
+  simp only [skipObjectBody, ct_str, ct_bytes, ct_none, ct_false, ct_true, ct_list_gen, ct_tuple_gen, h1, h2, h, if_false, if_true]
+  rfl
+theorem sob_int (self : Byte → Bytes → Option Bytes) (bs : Bytes) : skipObjectBody self 3 bs = skipInt bs := by
+  simp [skipObjectBody, ct_str, ct_bytes, ct_none, ct_false, ct_true, ct_list_gen, ct_tuple_gen, ct_int]
+theorem sob_inst (self : Byte → Bytes → Option Bytes) (bs : Bytes) : skipObjectBody self 80 bs = match bs with
+    | [] => none
+    | t2 :: r =>
+      if 83 ≤ t2 ∧ t2 ≤ 87 then some r
+      else if t2 = 81 then skipStr r
+      else if t2 = 82 then skipClassLoop self r.length r
+      else none := by
+  simp [skipObjectBody, ct_str, ct_bytes, ct_none, ct_false, ct_true, ct_list_gen, ct_tuple_gen, ct_int, ct_instance,
+    ct_inst_str, ct_inst_object, ct_inst_simple, ct_inst_generic]
+  rfl
+theorem sob_class (self : Byte → Bytes → Option Bytes) (t : Nat) (bs : Bytes) (h1 : 50 < t) (h2 : t < 254) (h3 : t ≠ 80) :
+    skipObjectBody self t bs = skipClassLoop self bs.length bs := by
+  have a1 : ¬ (t = 4 ∨ t = 5) := by omega
+  have a2 : ¬ (t = 2 ∨ t = 0 ∨ t = 1) := by omega
+  have a3 : ¬ (t = 20 ∨ t = 24) := by omega
+  have a4 : ¬ t = 3 := by omega
+  simp only [skipObjectBody, ct_str, ct_bytes, ct_none, ct_false, ct_true, ct_list_gen, ct_tuple_gen, ct_int, ct_instance,
+    ct_mypy_file, ct_reserved, a1, a2, a3, a4, h3, h1, h2, and_self, if_false, if_true]
+theorem sob_listint (self : Byte → Bytes → Option Bytes) (bs : Bytes) : skipObjectBody self 21 bs = match readSize bs with
+    | none => none
+    | some (n, r) => skipN skipInt n r := by
+  simp [skipObjectBody, ct_str, ct_bytes, ct_none, ct_false, ct_true, ct_list_gen, ct_tuple_gen, ct_int, ct_instance,
+    ct_mypy_file, ct_reserved, ct_list_int]
+  rfl
+theorem sob_liststr (self : Byte → Bytes → Option Bytes) (t : Nat) (bs : Bytes) (h : t = 22 ∨ t = 23) : skipObjectBody self t bs = match readSize bs with
+    | none => none
+    | some (n, r) => skipN skipStr n r := by
+  have a1 : ¬ (t = 4 ∨ t = 5) := by omega
+  have a2 : ¬ (t = 2 ∨ t = 0 ∨ t = 1) := by omega
+  have a3 : ¬ (t = 20 ∨ t = 24) := by omega
+  have a4 : ¬ t = 3 := by omega
+  have a5 : ¬ t = 80 := by omega
+  have a6 : ¬ (50 < t ∧ t < 254) := by omega
+  have a7 : ¬ t = 21 := by omega
+  simp only [skipObjectBody, ct_str, ct_bytes, ct_none, ct_false, ct_true, ct_list_gen, ct_tuple_gen, ct_int, ct_instance,
+    ct_mypy_file, ct_reserved, ct_list_int, ct_list_str, ct_list_bytes, a1, a2, a3, a4, a5, a6, a7, h, if_false, if_true]
+  rfl
+theorem sob_dict (self : Byte → Bytes → Option Bytes) (bs : Bytes) : skipObjectBody self 30 bs = match readSize bs with
+    | none => none
+    | some (n, r) => skipN (fun b => match skipStr b with
+        | none => none
+        | some b' => skipTagged self b') n r := by
+  simp [skipObjectBody, ct_str, ct_bytes, ct_none, ct_false, ct_true, ct_list_gen, ct_tuple_gen, ct_int, ct_instance,
+    ct_mypy_file, ct_reserved, ct_list_int, ct_list_str, ct_list_bytes, ct_dict]
+  rfl
+theorem sob_float (self : Byte → Bytes → Option Bytes) (bs : Bytes) : skipObjectBody self 6 bs = skipBytes 8 bs := by
+  simp [skipObjectBody, ct_str, ct_bytes, ct_none, ct_false, ct_true, ct_list_gen, ct_tuple_gen, ct_int, ct_instance,
+    ct_mypy_file, ct_reserved, ct_list_int, ct_list_str, ct_list_bytes, ct_dict, ct_float]
+theorem sob_complex (self : Byte → Bytes → Option Bytes) (bs : Bytes) : skipObjectBody self 7 bs = skipBytes 16 bs := by
+  simp [skipObjectBody, ct_str, ct_bytes, ct_none, ct_false, ct_true, ct_list_gen, ct_tuple_gen, ct_int, ct_instance,
+    ct_mypy_file, ct_reserved, ct_list_int, ct_list_str, ct_list_bytes, ct_dict, ct_float, ct_complex]
+theorem sob_sentinel (self : Byte → Bytes → Option Bytes) (bs : Bytes) : skipObjectBody self 8 bs = (skipStr bs).bind skipStr := by
+  simp [skipObjectBody, ct_str, ct_bytes, ct_none, ct_false, ct_true, ct_list_gen, ct_tuple_gen, ct_int, ct_instance,
+    ct_mypy_file, ct_reserved, ct_list_int, ct_list_str, ct_list_bytes, ct_dict, ct_float, ct_complex, ct_sentinel]
+
 section spec
 variable (κ : String → Kind) (se : String → Val → Bytes) (sw : String → Val → Bool)
 
 /-- payload position -/
-def StP (c : C) : Prop := ∀ t v, skipOK κ (.pay t) c = true → wtBody sw c v = true →
+def StP (c : C) : Prop := ∀ (t : Nat) v, skipOK κ (.pay t) c = true → wtBody sw c v = true →
   ∀ F, (encBody se c v).length < F → ∀ tl, skipObject F t (encBody se c v ++ tl) = some tl
 /-- exactly one object: a tag that is not END, then its payload -/
 def StO (c : C) : Prop := ∀ v, skipOK κ .one c = true → wtBody sw c v = true →
-  ∃ t pl, encBody se c v = t :: pl ∧ t ≠ cTag "END_TAG" ∧
+  ∃ (t : Nat) (pl : Bytes), encBody se c v = t :: pl ∧ t ≠ cTag "END_TAG" ∧
     ∀ F, pl.length < F → ∀ tl, skipObject F t (pl ++ tl) = some tl
 /-- zero or more objects: the class loop steps over them in `m` iterations -/
 def StS (c : C) : Prop := ∀ v, skipOK κ .seq c = true → wtBody sw c v = true →
@@ -173,7 +244,7 @@ def StD (c : C) : Prop := ∀ v, skipOK κ .dictItem c = true → wtBody sw c v 
     (match skipStr (encBody se c v ++ tl) with
       | none => none
       | some b' => skipTagged (skipObject F) b') = some tl
-def StE (c : C) : Prop := ∀ t v, skipOK κ (.ent t) c = true → wtBody sw c v = true →
+def StE (c : C) : Prop := ∀ (t : Nat) v, skipOK κ (.ent t) c = true → wtBody sw c v = true →
   ∃ m, m ≤ (encBody se c v).length ∧ ∀ F, (encBody se c v).length < F → ∀ k tl, ∃ r,
     skipObject F t (encBody se c v ++ tl) = some r ∧
     skipClassLoop (skipObject F) (k + m) r = skipClassLoop (skipObject F) k tl
@@ -189,10 +260,656 @@ structure SelfSkip : Prop where
     ∃ m, 1 ≤ m ∧ m ≤ (se n v).length ∧ ∀ F, (se n v).length ≤ F → ∀ k tl,
       skipClassLoop (skipObject F) (k + m) (se n v ++ tl) = some tl
   one : ∀ n v, κ n = .one → sw n v = true →
-    ∃ t pl, se n v = t :: pl ∧ t ≠ cTag "END_TAG" ∧
+    ∃ (t : Nat) (pl : Bytes), se n v = t :: pl ∧ t ≠ cTag "END_TAG" ∧
       ∀ F, pl.length < F → ∀ tl, skipObject F t (pl ++ tl) = some tl
   inst : ∀ n v, κ n = .inst → sw n v = true →
     ∀ F, (se n v).length < F → ∀ tl, skipObject F (cTag "INSTANCE") (se n v ++ tl) = some tl
+
+variable {κ se sw}
+
+theorem size_pos (c : C) : 1 ≤ c.size := by cases c <;> simp [C.size]
+
+theorem encInt_nonempty (v : Int) : 1 ≤ (encInt v).length := by
+  unfold encInt encLong encShort
+  split
+  · split
+    · simp
+    · split <;> simp
+  · simp
+
+theorem intOk_packFlags (bs : List Bool) (h : bs.length ≤ 26) : IntOk (packFlags bs) := by
+  have hb := packFlags_bounds bs 26 h
+  have h26 : pow2 26 = 67108864 := by decide
+  rw [h26] at hb
+  left
+  simp only [inShort, Bool.and_eq_true, decide_eq_true_eq]
+  simp only [MIN_FOUR_BYTES_INT, MAX_FOUR_BYTES_INT]
+  omega
+
+theorem skipObject_pos {F : Nat} {n : Nat} (h : n < F) : ∃ F', F = F' + 1 := ⟨F - 1, by omega⟩
+
+/-- an object in the class loop: one iteration -/
+theorem loop_one (obj : Byte → Bytes → Option Bytes) (k : Nat) (t : Nat) (pl tl : Bytes)
+    (hne : t ≠ cTag "END_TAG") (h : obj t (pl ++ tl) = some tl) :
+    skipClassLoop obj (k + 1) (t :: pl ++ tl) = skipClassLoop obj k tl := by
+  rw [List.cons_append, skipClassLoop_step]
+  simp only [hne, if_false, h]
+
+theorem seq_of_one {e : Bytes}
+    (h : ∃ (t : Nat) (pl : Bytes), e = t :: pl ∧ t ≠ cTag "END_TAG" ∧ ∀ F, pl.length < F → ∀ tl, skipObject F t (pl ++ tl) = some tl) :
+    ∃ m, m ≤ e.length ∧ ∀ F, e.length < F → ∀ k tl,
+      skipClassLoop (skipObject F) (k + m) (e ++ tl) = skipClassLoop (skipObject F) k tl := by
+  obtain ⟨t, pl, he, hne, hobj⟩ := h
+  refine ⟨1, by rw [he]; simp, fun F hF k tl => ?_⟩
+  rw [he] at hF ⊢
+  simp only [List.length_cons] at hF
+  exact loop_one _ k t pl tl hne (hobj F (by omega) tl)
+
+theorem strlike_skip : ∀ c, isStrLike c = true → ∀ x tl, wtBody sw c x = true →
+    skipStr (encBody se c x ++ tl) = some tl := by
+  intro c
+  induction c with
+  | str =>
+    intro _ x tl hw
+    cases x <;> simp only [wtBody, decide_eq_true_eq] at hw <;> try contradiction
+    simp only [encBody]; exact skipStr_enc _ _ hw
+  | bytes =>
+    intro _ x tl hw
+    cases x <;> simp only [wtBody, decide_eq_true_eq] at hw <;> try contradiction
+    simp only [encBody]; exact skipStr_enc _ _ hw
+  | field n c ih =>
+    intro h x tl hw
+    simp only [isStrLike] at h
+    cases x <;> simp only [wtBody, Bool.and_eq_true] at hw <;> try contradiction
+    simp only [encBody]; exact ih h _ tl hw.2
+  | _ => intro h; simp [isStrLike] at h
+
+theorem seq_pair_nonlit (a b : C) (h : ∀ t, a ≠ .lit t) :
+    skipOK κ .seq (.pair a b) = (skipOK κ .seq a && skipOK κ .seq b) := by
+  cases a <;> first | exact absurd rfl (h _) | simp [skipOK]
+
+theorem body_pair_nonlit (a b : C) (h : ∀ t, a ≠ .lit t) :
+    skipOK κ .body (.pair a b) = (skipOK κ .seq a && skipOK κ .body b) := by
+  cases a <;> first | exact absurd rfl (h _) | simp [skipOK]
+
+/-- closes a statement whose `skipOK` premise is false for this constructor -/
+macro "vac" : tactic =>
+  `(tactic| first
+    | (intro v h; simp [skipOK] at h; done)
+    | (intro t v h; simp [skipOK] at h; done))
+
+macro "bomega" : tactic => `(tactic| ((try unfold Byte at *); omega))
+
+theorem spec_all (hs : SelfSkip κ se sw) : ∀ n c, c.size ≤ n → Spec κ se sw c := by
+  intro n
+  induction n with
+  | zero => intro c hc; have := size_pos c; omega
+  | succ n ih =>
+    intro c hc
+    cases c with
+    | int =>
+      refine ⟨?_, by vac, by vac, by vac, by vac, by vac, by vac⟩
+      intro t v h hw F hF tl
+      cases v <;> simp only [wtBody, decide_eq_true_eq] at hw <;> try contradiction
+      simp only [skipOK, beq_iff_eq, ct_int] at h
+      subst h
+      obtain ⟨F', rfl⟩ := skipObject_pos hF
+      rw [skipObject_succ, sob_int]
+      exact skipInt_enc _ _ hw
+    | str =>
+      refine ⟨?_, by vac, by vac, by vac, by vac, by vac, by vac⟩
+      intro t v h hw F hF tl
+      cases v <;> simp only [wtBody, decide_eq_true_eq] at hw <;> try contradiction
+      simp only [skipOK, Bool.or_eq_true, beq_iff_eq, ct_str, ct_bytes] at h
+      obtain ⟨F', rfl⟩ := skipObject_pos hF
+      rw [skipObject_succ, sob_str _ _ _ h]
+      exact skipStr_enc _ _ hw
+    | bytes =>
+      refine ⟨?_, by vac, by vac, by vac, by vac, by vac, by vac⟩
+      intro t v h hw F hF tl
+      cases v <;> simp only [wtBody, decide_eq_true_eq] at hw <;> try contradiction
+      simp only [skipOK, Bool.or_eq_true, beq_iff_eq, ct_str, ct_bytes] at h
+      obtain ⟨F', rfl⟩ := skipObject_pos hF
+      rw [skipObject_succ, sob_str _ _ _ h]
+      exact skipStr_enc _ _ hw
+    | float =>
+      refine ⟨?_, by vac, by vac, by vac, by vac, by vac, by vac⟩
+      intro t v h hw F hF tl
+      cases v <;> simp only [wtBody, beq_iff_eq] at hw <;> try contradiction
+      simp only [skipOK, beq_iff_eq, ct_float] at h
+      subst h
+      obtain ⟨F', rfl⟩ := skipObject_pos hF
+      rw [skipObject_succ, sob_float]
+      simp only [encBody]
+      rw [← hw]; exact skipBytes_append _ _
+    | unit =>
+      refine ⟨?_, by vac, ?_, by vac, by vac, by vac, by vac⟩
+      · intro t v h hw F hF tl
+        cases v <;> simp only [wtBody] at hw <;> try contradiction
+        simp only [skipOK, emptyPay, Bool.or_eq_true, beq_iff_eq, ct_none, ct_false, ct_true] at h
+        obtain ⟨F', rfl⟩ := skipObject_pos hF
+        rw [skipObject_succ, sob_empty _ _ _ (by bomega)]
+        simp [encBody]
+      · intro v _ hw
+        cases v <;> simp only [wtBody] at hw <;> try contradiction
+        exact ⟨0, by simp, fun F _ k tl => by simp [encBody]⟩
+    | bool =>
+      have hO : StO κ se sw .bool := by
+        intro v _ hw
+        cases v <;> simp only [wtBody] at hw <;> try contradiction
+        rename_i b
+        refine ⟨if b then 1 else 0, [], by simp [encBody, encBool], by cases b <;> simp [ct_end], fun F hF tl => ?_⟩
+        obtain ⟨F', rfl⟩ := skipObject_pos hF
+        rw [skipObject_succ, sob_empty _ _ _ (by cases b <;> simp)]
+        simp
+      refine ⟨by vac, hO, ?_, by vac, by vac, by vac, by vac⟩
+      intro v _ hw
+      exact seq_of_one (hO v (by simp [skipOK]) hw)
+    | flags k =>
+      have hO : StO κ se sw (.flags k) := by
+        intro v _ hw
+        cases v <;> simp only [wtBody, Bool.and_eq_true, beq_iff_eq, decide_eq_true_eq] at hw <;> try contradiction
+        rename_i bs
+        refine ⟨3, encInt (packFlags bs), by simp [encBody, t_literal_int], by simp [ct_end], fun F hF tl => ?_⟩
+        obtain ⟨F', rfl⟩ := skipObject_pos hF
+        rw [skipObject_succ, sob_int]
+        exact skipInt_enc _ _ (intOk_packFlags bs (by omega))
+      refine ⟨by vac, hO, ?_, by vac, by vac, by vac, by vac⟩
+      intro v _ hw
+      exact seq_of_one (hO v (by simp [skipOK]) hw)
+    | lit t0 =>
+      refine ⟨by vac, by vac, by vac, ?_, by vac, by vac, by vac⟩
+      intro v h hw
+      simp only [skipOK, beq_iff_eq] at h
+      refine ⟨1, by omega, by simp [encBody], fun F _ k tl => ?_⟩
+      simp only [encBody, List.cons_append, List.nil_append, skipClassLoop_step, h, if_true]
+    | ref nm =>
+      refine ⟨?_, ?_, ?_, by vac, by vac, by vac, by vac⟩
+      · intro t v h hw F hF tl
+        simp only [wtBody] at hw
+        simp only [encBody] at hF ⊢
+        simp only [skipOK, Bool.or_eq_true, Bool.and_eq_true, beq_iff_eq, isClassTag, decide_eq_true_eq, bne_iff_ne,
+          ct_mypy_file, ct_reserved, ct_instance] at h
+        obtain ⟨F', rfl⟩ := skipObject_pos hF
+        cases h with
+        | inl h =>
+          obtain ⟨⟨⟨h1, h2⟩, h3⟩, hk⟩ := h
+          obtain ⟨m, _, hm, hb⟩ := hs.body nm v hk hw
+          rw [skipObject_succ, sob_class _ _ _ h1 h2 h3]
+          have hl : (se nm v ++ tl).length = (tl.length + (se nm v).length - m) + m := by
+            simp only [List.length_append]; omega
+          rw [hl]
+          exact hb F' (by omega) _ tl
+        | inr h =>
+          obtain ⟨h1, hk⟩ := h
+          subst h1
+          have := hs.inst nm v hk hw (F' + 1) hF tl
+          rw [ct_instance] at this
+          exact this
+      · intro v h hw
+        simp only [skipOK, beq_iff_eq] at h
+        simp only [wtBody] at hw
+        simp only [encBody]
+        exact hs.one nm v h hw
+      · intro v h hw
+        simp only [skipOK, beq_iff_eq] at h
+        simp only [wtBody] at hw
+        simp only [encBody]
+        exact seq_of_one (hs.one nm v h hw)
+    | field name c =>
+      have hsz : c.size ≤ n := by simp only [C.size] at hc; omega
+      obtain ⟨iP, iO, iS, iB, iD, iE, iI⟩ := ih c hsz
+      refine ⟨?_, ?_, ?_, ?_, ?_, ?_, ?_⟩
+      · intro t v h hw
+        cases v <;> simp only [wtBody, Bool.and_eq_true] at hw <;> try contradiction
+        simp only [skipOK] at h
+        simp only [encBody]
+        exact iP t _ h hw.2
+      · intro v h hw
+        cases v <;> simp only [wtBody, Bool.and_eq_true] at hw <;> try contradiction
+        simp only [skipOK] at h
+        simp only [encBody]
+        exact iO _ h hw.2
+      · intro v h hw
+        cases v <;> simp only [wtBody, Bool.and_eq_true] at hw <;> try contradiction
+        simp only [skipOK] at h
+        simp only [encBody]
+        exact iS _ h hw.2
+      · intro v h hw
+        cases v <;> simp only [wtBody, Bool.and_eq_true] at hw <;> try contradiction
+        simp only [skipOK] at h
+        simp only [encBody]
+        exact iB _ h hw.2
+      · intro v h hw
+        cases v <;> simp only [wtBody, Bool.and_eq_true] at hw <;> try contradiction
+        simp only [skipOK] at h
+        simp only [encBody]
+        exact iD _ h hw.2
+      · intro t v h hw
+        cases v <;> simp only [wtBody, Bool.and_eq_true] at hw <;> try contradiction
+        simp only [skipOK] at h
+        simp only [encBody]
+        exact iE t _ h hw.2
+      · intro v h hw
+        cases v <;> simp only [wtBody, Bool.and_eq_true] at hw <;> try contradiction
+        simp only [skipOK] at h
+        simp only [encBody]
+        exact iI _ h hw.2
+    | fail =>
+      refine ⟨?_, ?_, ?_, ?_, ?_, ?_, ?_⟩
+      all_goals first
+        | (intro v _ hw; cases v <;> simp [wtBody] at hw; done)
+        | (intro t v _ hw; cases v <;> simp [wtBody] at hw; done)
+    | list c' =>
+      have hsz : c'.size ≤ n := by simp only [C.size] at hc; omega
+      obtain ⟨_, iO, _, _, iD, _, _⟩ := ih c' hsz
+      refine ⟨?_, by vac, by vac, by vac, by vac, by vac, by vac⟩
+      intro t v h hw F hF tl
+      simp only [wtBody, Bool.and_eq_true, decide_eq_true_eq] at hw
+      obtain ⟨hlen, hit⟩ := hw
+      simp only [encBody, List.length_append] at hF
+      simp only [encBody, List.append_assoc]
+      obtain ⟨F', rfl⟩ := skipObject_pos hF
+      have hne := encInt_nonempty (v.len : Int)
+      simp only [skipOK, Bool.or_eq_true, Bool.and_eq_true, beq_iff_eq, ct_list_gen, ct_tuple_gen, ct_list_int,
+        ct_list_str, ct_list_bytes, ct_dict] at h
+      rcases h with ((h | h) | h) | h
+      · obtain ⟨ht, ho⟩ := h
+        rw [skipObject_succ, sob_listgen _ _ _ ht, readSize_enc _ _ hlen]
+        simp only
+        apply skipN_items_bd (skipTagged (skipObject F')) (encBody se c') (wtBody sw c')
+          (encItems (encBody se c') v).length
+        · intro x tl' hx hb
+          obtain ⟨t', pl, he, _, hobj⟩ := iO x ho hx
+          rw [he] at hb ⊢
+          simp only [List.length_cons] at hb
+          simp only [List.cons_append, skipTagged]
+          exact hobj F' (by omega) tl'
+        · exact hit
+        · exact Nat.le_refl _
+      · obtain ⟨ht, hc'⟩ := h
+        subst ht; subst hc'
+        rw [skipObject_succ, sob_listint, readSize_enc _ _ hlen]
+        simp only
+        refine skipN_items skipInt (encBody se .int) (wtBody sw .int) ?_ v tl hit
+        intro x tl' hx
+        cases x <;> simp only [wtBody, decide_eq_true_eq] at hx <;> try contradiction
+        simp only [encBody]; exact skipInt_enc _ _ hx
+      · obtain ⟨ht, hc'⟩ := h
+        rw [skipObject_succ, sob_liststr _ _ _ ht, readSize_enc _ _ hlen]
+        simp only
+        exact skipN_items skipStr _ _ (fun x tl' hx => strlike_skip c' hc' x tl' hx) v tl hit
+      · obtain ⟨ht, hd⟩ := h
+        subst ht
+        rw [skipObject_succ, sob_dict, readSize_enc _ _ hlen]
+        simp only
+        apply skipN_items_bd _ (encBody se c') (wtBody sw c') (encItems (encBody se c') v).length
+        · intro x tl' hx hb
+          exact iD x hd hx F' (by omega) tl'
+        · exact hit
+        · exact Nat.le_refl _
+    | alt t0 c' rest =>
+      have hsz1 : c'.size ≤ n := by simp only [C.size] at hc; omega
+      have hsz2 : rest.size ≤ n := by simp only [C.size] at hc; omega
+      obtain ⟨iP, _, iS, iB, _, iE, _⟩ := ih c' hsz1
+      obtain ⟨_, rO, rS, _, _, _, rI⟩ := ih rest hsz2
+      refine ⟨by vac, ?_, ?_, by vac, by vac, by vac, ?_⟩
+      · -- exactly one object
+        intro v h hw
+        cases v <;> simp only [wtBody] at hw <;> try contradiction
+        rename_i t' v'
+        simp only [skipOK, Bool.and_eq_true, bne_iff_ne, ne_eq] at h
+        obtain ⟨⟨hne, hpay⟩, hrest⟩ := h
+        by_cases e : t' = t0
+        · subst e
+          simp only [if_true] at hw
+          refine ⟨t', encBody se c' v', by simp [encBody], hne, fun F hF tl => iP t' v' hpay hw F hF tl⟩
+        · simp only [e, if_false, Bool.and_eq_true] at hw
+          have := rO (.variant t' v') hrest hw.2
+          simpa only [encBody, e, if_false] using this
+      · -- objects inside a class body
+        intro v h hw
+        cases v <;> simp only [wtBody] at hw <;> try contradiction
+        rename_i t' v'
+        simp only [skipOK, Bool.and_eq_true, Bool.or_eq_true, bne_iff_ne, ne_eq] at h
+        obtain ⟨⟨hne, hent⟩, hrest⟩ := h
+        by_cases e : t' = t0
+        · subst e
+          simp only [if_true] at hw
+          have henc : encBody se (.alt t' c' rest) (.variant t' v') = t' :: encBody se c' v' := by simp [encBody]
+          rw [henc]
+          rcases hent with (hpay | hemp) | hE
+          · exact seq_of_one ⟨t', encBody se c' v', rfl, hne, fun F hF tl => iP t' v' hpay hw F hF tl⟩
+          · obtain ⟨hemp, hseq⟩ := hemp
+            obtain ⟨m', hm', hS⟩ := iS v' hseq hw
+            refine ⟨m' + 1, by simp only [List.length_cons]; omega, fun F hF k tl => ?_⟩
+            simp only [List.length_cons] at hF
+            obtain ⟨F', rfl⟩ := skipObject_pos hF
+            simp only [emptyPay, Bool.or_eq_true, beq_iff_eq, ct_none, ct_false, ct_true] at hemp
+            have h1 := loop_one (skipObject (F' + 1)) (k + m') t' [] (encBody se c' v' ++ tl) hne
+              (by rw [skipObject_succ, sob_empty _ _ _ (by bomega)]; simp)
+            simp only [List.nil_append, List.cons_append] at h1 ⊢
+            rw [show k + (m' + 1) = k + m' + 1 by omega, h1]
+            exact hS (F' + 1) (by omega) k tl
+          · obtain ⟨m', hm', hEE⟩ := iE t' v' hE hw
+            refine ⟨m' + 1, by simp only [List.length_cons]; omega, fun F hF k tl => ?_⟩
+            simp only [List.length_cons] at hF
+            obtain ⟨r, hr1, hr2⟩ := hEE F (by omega) k tl
+            rw [show k + (m' + 1) = k + m' + 1 by omega, List.cons_append, skipClassLoop_step]
+            simp only [hne, if_false, hr1, hr2]
+        · simp only [e, if_false, Bool.and_eq_true] at hw
+          have := rS (.variant t' v') hrest hw.2
+          simpa only [encBody, e, if_false] using this
+      · -- after INSTANCE
+        intro v h hw F hF tl
+        cases v <;> simp only [wtBody] at hw <;> try contradiction
+        rename_i t' v'
+        simp only [skipOK, Bool.and_eq_true, Bool.or_eq_true, beq_iff_eq, decide_eq_true_eq, ct_inst_str, ct_inst_object,
+          ct_inst_simple, ct_inst_generic] at h
+        obtain ⟨hent, hrest⟩ := h
+        by_cases e : t' = t0
+        · subst e
+          simp only [if_true] at hw
+          have henc : encBody se (.alt t' c' rest) (.variant t' v') = t' :: encBody se c' v' := by simp [encBody]
+          rw [henc] at hF ⊢
+          simp only [List.length_cons] at hF
+          obtain ⟨F', rfl⟩ := skipObject_pos hF
+          rw [ct_instance, skipObject_succ, sob_inst]
+          simp only [List.cons_append]
+          rcases hent with (h1 | h2) | h3
+          · obtain ⟨⟨ha, hb⟩, hc'⟩ := h1
+            subst hc'
+            cases v' <;> simp only [wtBody] at hw <;> try contradiction
+            have : 83 ≤ t' ∧ t' ≤ 87 := ⟨ha, hb⟩
+            simp [this, encBody]
+          · obtain ⟨ha, hb⟩ := h2
+            subst ha
+            simp only [show ¬ (83 ≤ 81 ∧ 81 ≤ 87) by omega, if_false, if_true]
+            exact strlike_skip c' hb v' tl hw
+          · obtain ⟨ha, hb⟩ := h3
+            subst ha
+            simp only [show ¬ (83 ≤ 82 ∧ 82 ≤ 87) by omega, show ¬ (82 = 81) by omega, if_false, if_true]
+            obtain ⟨m, _, hm, hB⟩ := iB v' hb hw
+            have hl : (encBody se c' v' ++ tl).length = (tl.length + (encBody se c' v').length - m) + m := by
+              simp only [List.length_append]; omega
+            rw [hl]
+            exact hB F' (by omega) _ tl
+        · simp only [e, if_false, Bool.and_eq_true] at hw
+          have := rI (.variant t' v') hrest hw.2 F (by simpa only [encBody, e, if_false] using hF) tl
+          simpa only [encBody, e, if_false] using this
+    | pair a b =>
+      have hsa : a.size ≤ n := by simp only [C.size] at hc; omega
+      have hsb : b.size ≤ n := by simp only [C.size] at hc; omega
+      obtain ⟨aP, _, aS, _, _, _, _⟩ := ih a hsa
+      obtain ⟨_, _, bS, bB, _, _, _⟩ := ih b hsb
+      have hlit : (∃ t', a = .lit t') ∨ (∀ t', a ≠ .lit t') := by cases a <;> simp
+      refine ⟨?_, ?_, ?_, ?_, ?_, ?_, by vac⟩
+      · -- payload made of two parts: complex, sentinel
+        intro t v h hw F hF tl
+        simp only [skipOK, Bool.or_eq_true, Bool.and_eq_true, beq_iff_eq, ct_complex, ct_sentinel] at h
+        obtain ⟨F', rfl⟩ := skipObject_pos hF
+        rcases h with ⟨⟨ht, ha⟩, hb⟩ | ⟨⟨ht, ha⟩, hb⟩
+        · subst ht; subst ha; subst hb
+          cases v <;> simp only [wtBody, Bool.and_eq_true] at hw <;> try contradiction
+          rename_i x y
+          obtain ⟨hx, hy⟩ := hw
+          cases x <;> simp only [wtBody, beq_iff_eq] at hx <;> try contradiction
+          cases y <;> simp only [wtBody, Bool.and_eq_true] at hy <;> try contradiction
+          rename_i bx y1 y2
+          obtain ⟨hy1, hy2⟩ := hy
+          cases y1 <;> simp only [wtBody, beq_iff_eq] at hy1 <;> try contradiction
+          cases y2 <;> simp only [wtBody] at hy2 <;> try contradiction
+          rename_i by'
+          rw [skipObject_succ, sob_complex]
+          simp only [encBody, List.append_nil]
+          have : (bx ++ by').length = 16 := by simp [hx, hy1]
+          rw [← this]; exact skipBytes_append _ _
+        · subst ht; subst ha; subst hb
+          cases v <;> simp only [wtBody, Bool.and_eq_true] at hw <;> try contradiction
+          rename_i x y
+          obtain ⟨hx, hy⟩ := hw
+          cases x <;> simp only [wtBody, decide_eq_true_eq] at hx <;> try contradiction
+          cases y <;> simp only [wtBody, Bool.and_eq_true] at hy <;> try contradiction
+          rename_i sx y1 y2
+          obtain ⟨hy1, hy2⟩ := hy
+          cases y1 <;> simp only [wtBody, decide_eq_true_eq] at hy1 <;> try contradiction
+          cases y2 <;> simp only [wtBody] at hy2 <;> try contradiction
+          rename_i sy
+          rw [skipObject_succ, sob_sentinel]
+          simp only [encBody, List.append_nil, List.append_assoc, skipStr_enc _ _ hx, Option.bind, skipStr_enc _ _ hy1]
+      · -- one object written as `lit t`, payload
+        intro v h hw
+        cases a with
+        | lit t' =>
+          cases b with
+          | pair p r =>
+            cases r with
+            | unit =>
+              simp only [skipOK, Bool.and_eq_true, bne_iff_ne, ne_eq] at h
+              obtain ⟨hne, hpay⟩ := h
+              have hsp : p.size ≤ n := by simp only [C.size] at hc; omega
+              obtain ⟨pP, _, _, _, _, _, _⟩ := ih p hsp
+              cases v <;> simp only [wtBody, Bool.and_eq_true] at hw <;> try contradiction
+              rename_i x y
+              obtain ⟨_, hy⟩ := hw
+              cases y <;> simp only [wtBody, Bool.and_eq_true] at hy <;> try contradiction
+              rename_i y1 y2
+              cases y2 <;> simp only [wtBody, and_true, Bool.false_eq_true, and_false] at hy <;> try contradiction
+              refine ⟨t', encBody se p y1, by simp [encBody], hne, fun F hF tl => pP t' y1 hpay hy F hF tl⟩
+            | _ => simp [skipOK] at h
+          | _ => simp [skipOK] at h
+        | _ => simp [skipOK] at h
+      · -- sequence of objects
+        intro v h hw
+        cases v <;> simp only [wtBody, Bool.and_eq_true] at hw <;> try contradiction
+        rename_i x y
+        obtain ⟨hx, hy⟩ := hw
+        rcases hlit with ⟨t', rfl⟩ | hnl
+        · cases x <;> simp only [wtBody] at hx <;> try contradiction
+          cases b with
+          | pair p r =>
+            simp only [skipOK, Bool.and_eq_true, bne_iff_ne, ne_eq] at h
+            obtain ⟨⟨hne, hpay⟩, hseq⟩ := h
+            have hsp : p.size ≤ n := by simp only [C.size] at hc; omega
+            have hsr : r.size ≤ n := by simp only [C.size] at hc; omega
+            obtain ⟨pP, _, _, _, _, _, _⟩ := ih p hsp
+            obtain ⟨_, _, rS, _, _, _, _⟩ := ih r hsr
+            cases y <;> simp only [wtBody, Bool.and_eq_true] at hy <;> try contradiction
+            rename_i y1 y2
+            obtain ⟨m', hm', hS⟩ := rS y2 hseq hy.2
+            refine ⟨m' + 1, by simp [encBody]; omega, fun F hF k tl => ?_⟩
+            simp only [encBody, List.length_append, List.length_cons, List.length_nil] at hF
+            have h1 := loop_one (skipObject F) (k + m') t' (encBody se p y1) (encBody se r y2 ++ tl) hne
+              (pP t' y1 hpay hy.1 F (by omega) _)
+            simp only [encBody, List.cons_append, List.nil_append, List.append_assoc] at h1 ⊢
+            rw [show k + (m' + 1) = k + m' + 1 by omega, h1]
+            exact hS F (by omega) k tl
+          | unit =>
+            simp only [skipOK, emptyPay, Bool.or_eq_true, beq_iff_eq, ct_none, ct_false, ct_true] at h
+            cases y <;> simp only [wtBody] at hy <;> try contradiction
+            refine ⟨1, by simp [encBody], fun F hF k tl => ?_⟩
+            obtain ⟨F', rfl⟩ := skipObject_pos hF
+            have h1 := loop_one (skipObject (F' + 1)) k t' [] tl (by rw [ct_end]; bomega)
+              (by rw [skipObject_succ, sob_empty _ _ _ (by bomega)]; simp)
+            simpa [encBody] using h1
+          | _ => simp [skipOK] at h
+        · rw [seq_pair_nonlit a b hnl, Bool.and_eq_true] at h
+          obtain ⟨ma, hma, hSa⟩ := aS x h.1 hx
+          obtain ⟨mb, hmb, hSb⟩ := bS y h.2 hy
+          refine ⟨mb + ma, by simp [encBody]; omega, fun F hF k tl => ?_⟩
+          simp only [encBody, List.length_append] at hF
+          simp only [encBody, List.append_assoc]
+          rw [show k + (mb + ma) = k + mb + ma by omega, hSa F (by omega) (k + mb) _]
+          exact hSb F (by omega) k tl
+      · -- class body: objects, then END_TAG
+        intro v h hw
+        cases v <;> simp only [wtBody, Bool.and_eq_true] at hw <;> try contradiction
+        rename_i x y
+        obtain ⟨hx, hy⟩ := hw
+        rcases hlit with ⟨t', rfl⟩ | hnl
+        · cases x <;> simp only [wtBody] at hx <;> try contradiction
+          cases b with
+          | pair p r =>
+            simp only [skipOK, beq_iff_eq] at h
+            by_cases he : t' = cTag "END_TAG"
+            · simp [he] at h
+            · simp only [he, if_false, Bool.and_eq_true] at h
+              obtain ⟨hpay, hbody⟩ := h
+              have hsp : p.size ≤ n := by simp only [C.size] at hc; omega
+              have hsr : r.size ≤ n := by simp only [C.size] at hc; omega
+              obtain ⟨pP, _, _, _, _, _, _⟩ := ih p hsp
+              obtain ⟨_, _, _, rB, _, _, _⟩ := ih r hsr
+              cases y <;> simp only [wtBody, Bool.and_eq_true] at hy <;> try contradiction
+              rename_i y1 y2
+              obtain ⟨m', hm1, hm', hB⟩ := rB y2 hbody hy.2
+              refine ⟨m' + 1, by omega, by simp [encBody]; omega, fun F hF k tl => ?_⟩
+              simp only [encBody, List.length_append, List.length_cons, List.length_nil] at hF
+              have h1 := loop_one (skipObject F) (k + m') t' (encBody se p y1) (encBody se r y2 ++ tl) he
+                (pP t' y1 hpay hy.1 F (by omega) _)
+              simp only [encBody, List.cons_append, List.nil_append, List.append_assoc] at h1 ⊢
+              rw [show k + (m' + 1) = k + m' + 1 by omega, h1]
+              exact hB F (by omega) k tl
+          | unit =>
+            simp only [skipOK, beq_iff_eq] at h
+            cases y <;> simp only [wtBody] at hy <;> try contradiction
+            refine ⟨1, by omega, by simp [encBody], fun F _ k tl => ?_⟩
+            simp only [encBody, List.cons_append, List.nil_append, List.append_nil, skipClassLoop_step, h, if_true]
+          | _ => simp [skipOK] at h
+        · rw [body_pair_nonlit a b hnl, Bool.and_eq_true] at h
+          obtain ⟨ma, hma, hSa⟩ := aS x h.1 hx
+          obtain ⟨mb, hmb1, hmb, hBb⟩ := bB y h.2 hy
+          refine ⟨mb + ma, by omega, by simp [encBody]; omega, fun F hF k tl => ?_⟩
+          simp only [encBody, List.length_append] at hF
+          simp only [encBody, List.append_assoc]
+          rw [show k + (mb + ma) = k + mb + ma by omega, hSa F (by omega) (k + mb) _]
+          exact hBb F (by omega) k tl
+      · -- dict item: bare key, one object
+        intro v h hw F hF tl
+        cases a with
+        | str =>
+          cases b with
+          | pair o r =>
+            cases r with
+            | unit =>
+              simp only [skipOK] at h
+              have hso : o.size ≤ n := by simp only [C.size] at hc; omega
+              obtain ⟨_, oO, _, _, _, _, _⟩ := ih o hso
+              cases v <;> simp only [wtBody, Bool.and_eq_true] at hw <;> try contradiction
+              rename_i x y
+              obtain ⟨hx, hy⟩ := hw
+              cases x <;> simp only [wtBody, decide_eq_true_eq] at hx <;> try contradiction
+              cases y <;> simp only [wtBody, Bool.and_eq_true] at hy <;> try contradiction
+              rename_i key y1 y2
+              cases y2 <;> simp only [wtBody, and_true, Bool.false_eq_true, and_false] at hy <;> try contradiction
+              obtain ⟨t', pl, he, _, hobj⟩ := oO y1 h hy
+              simp only [encBody, List.append_nil, List.length_append] at hF
+              simp only [encBody, List.append_nil, List.append_assoc, skipStr_enc _ _ hx]
+              rw [he] at hF ⊢
+              simp only [List.length_cons] at hF
+              simp only [List.cons_append, skipTagged]
+              have : 1 ≤ (encStr key).length := by
+                unfold encStr; have := encInt_nonempty (key.length : Int)
+                simp only [List.length_append]
+                have hs : inShort (key.length : Int) = true := by
+                  simp only [inShort, Bool.and_eq_true, decide_eq_true_eq]
+                  exact ⟨by simp only [MIN_FOUR_BYTES_INT]; omega, hx⟩
+                unfold encInt at this; rw [if_pos hs] at this; omega
+              exact hobj F (by omega) tl
+            | _ => simp [skipOK] at h
+          | _ => simp [skipOK] at h
+        | _ => simp [skipOK] at h
+      · -- payload, then further objects
+        intro t v h hw
+        simp only [skipOK, Bool.and_eq_true] at h
+        cases v <;> simp only [wtBody, Bool.and_eq_true] at hw <;> try contradiction
+        rename_i x y
+        obtain ⟨mb, hmb, hSb⟩ := bS y h.2 hw.2
+        refine ⟨mb, by simp [encBody]; omega, fun F hF k tl => ?_⟩
+        simp only [encBody, List.length_append] at hF
+        refine ⟨encBody se b y ++ tl, ?_, hSb F (by omega) k tl⟩
+        simp only [encBody, List.append_assoc]
+        exact aP t x h.1 hw.1 F (by omega) _
+
+/-- the hypotheses on referenced entries hold at every nesting level of the writer -/
+theorem selfSkip_enc (env : Env) (κ : String → Kind) (hk : ∀ n, kindOK κ (κ n) (env n) = true) :
+    ∀ f, SelfSkip κ (fun n v => enc env f (env n) v) (fun n v => wt env f (env n) v) := by
+  intro f
+  induction f with
+  | zero =>
+    refine ⟨?_, ?_, ?_⟩ <;> intro n v _ hw <;> simp [wt] at hw
+  | succ f ih =>
+    refine ⟨?_, ?_, ?_⟩
+    · intro n v hκ hw
+      have hb : skipOK κ .body (env n) = true := by have := hk n; rw [hκ] at this; exact this
+      exact (spec_all ih _ (env n) (Nat.le_refl _)).2.2.2.1 v hb hw
+    · intro n v hκ hw
+      have hb : skipOK κ .one (env n) = true := by have := hk n; rw [hκ] at this; exact this
+      exact (spec_all ih _ (env n) (Nat.le_refl _)).2.1 v hb hw
+    · intro n v hκ hw
+      have hb : skipOK κ .inst (env n) = true := by have := hk n; rw [hκ] at this; exact this
+      exact (spec_all ih _ (env n) (Nat.le_refl _)).2.2.2.2.2.2 v hb hw
+
+/-- `extract_symbol` on (the bytes of a class body ++ anything) returns exactly the class body -/
+theorem extract_enc_aux (env : Env) (κ : String → Kind) (hk : ∀ n, kindOK κ (κ n) (env n) = true)
+    (fuel : Nat) (cls : String) (v : Val) (rest : Bytes) (hκ : κ cls = .body)
+    (hw : wt env fuel (env cls) v = true) (F : Nat) (hF : (enc env fuel (env cls) v).length ≤ F) :
+    extractSymbol F (enc env fuel (env cls) v ++ rest) = some (enc env fuel (env cls) v, rest) := by
+  cases fuel with
+  | zero => simp [wt] at hw
+  | succ f =>
+    have hb : skipOK κ .body (env cls) = true := by have := hk cls; rw [hκ] at this; exact this
+    obtain ⟨m, _, hm, hB⟩ := (spec_all (selfSkip_enc env κ hk f) _ (env cls) (Nat.le_refl _)).2.2.2.1 v hb hw
+    have hB' := hB F hF (rest.length + (enc env (f + 1) (env cls) v).length - m) rest
+    have hl : (enc env (f + 1) (env cls) v ++ rest).length
+        = (rest.length + (enc env (f + 1) (env cls) v).length - m) + m := by
+      simp only [List.length_append]
+      have : m ≤ (enc env (f + 1) (env cls) v).length := hm
+      omega
+    unfold extractSymbol
+    rw [hl]
+    have hB'' : skipClassLoop (skipObject F) (rest.length + (enc env (f + 1) (env cls) v).length - m + m)
+        (enc env (f + 1) (env cls) v ++ rest) = some rest := hB'
+    rw [hB'']
+    simp only
+    rw [← hl]
+    simp [List.length_append, List.take_left']
+
+/-- kinds given as an association list -/
+def kindOfL (l : List (String × Kind)) : String → Kind := fun n =>
+  match l.find? (fun e => e.1 == n) with
+  | some e => e.2
+  | none => .other
+
+theorem kinds_ok (l : List (String × C × C)) (ks : List (String × Kind))
+    (h : (l.all fun e => kindOK (kindOfL ks) (kindOfL ks e.1) e.2.1) = true)
+    (h2 : (ks.all fun k => l.any fun e => e.1 == k.1) = true) :
+    ∀ n, kindOK (kindOfL ks) (kindOfL ks n) (envOfW l n) = true := by
+  intro n
+  unfold envOfW
+  cases hf : l.find? (fun e => e.1 == n) with
+  | none =>
+    simp only
+    have hk : kindOfL ks n = .other := by
+      unfold kindOfL
+      cases hg : ks.find? (fun e => e.1 == n) with
+      | none => rfl
+      | some k =>
+        exfalso
+        have hm : k ∈ ks := List.mem_of_find?_eq_some hg
+        have hn : k.1 = n := by simpa using List.find?_some hg
+        have := List.all_eq_true.mp h2 k hm
+        rw [List.any_eq_true] at this
+        obtain ⟨e, he, hek⟩ := this
+        have hnone := List.find?_eq_none.mp hf e he
+        simp only [beq_iff_eq] at hek hnone
+        exact hnone (hek.trans hn)
+    rw [hk]; rfl
+  | some e =>
+    have hm : e ∈ l := List.mem_of_find?_eq_some hf
+    have hn : e.1 = n := by simpa using List.find?_some hf
+    have := List.all_eq_true.mp h e hm
+    rw [hn] at this
+    exact this
 
 end spec
 
